@@ -257,16 +257,11 @@ impl<'a> Parser<'a> {
             TokenKind::Let | TokenKind::Const | TokenKind::Var => Ok(
                 Statement::VariableDeclaration(self.parse_variable_declaration()?),
             ),
-            TokenKind::Function => Ok(Statement::FunctionDeclaration(Box::new(
-                self.parse_function_declaration(false)?,
-            ))),
+            TokenKind::Function => self.parse_function_declaration(false),
             TokenKind::Async => {
                 // async function declaration
                 self.advance(); // consume 'async'
-                self.require_token(&TokenKind::Function)?;
-                let mut func = self.parse_function_declaration_inner()?;
-                func.async_ = true;
-                Ok(Statement::FunctionDeclaration(Box::new(func)))
+                self.parse_function_declaration(true)
             }
             TokenKind::Class => Ok(Statement::ClassDeclaration(Box::new(
                 self.parse_class_declaration()?,
@@ -596,17 +591,23 @@ impl<'a> Parser<'a> {
         }))
     }
 
-    fn parse_function_declaration(
-        &mut self,
-        is_async: bool,
-    ) -> Result<FunctionDeclaration, JsError> {
+    /// Parse a function declaration as a statement. An overload signature (no body) declares
+    /// nothing at run time and yields an empty statement; the implementation follows it.
+    fn parse_function_declaration(&mut self, is_async: bool) -> Result<Statement, JsError> {
         self.require_token(&TokenKind::Function)?;
-        let mut func = self.parse_function_declaration_inner()?;
-        func.async_ = is_async;
-        Ok(func)
+        Ok(match self.parse_function_declaration_inner()? {
+            Some(mut func) => {
+                func.async_ = is_async;
+                Statement::FunctionDeclaration(Box::new(func))
+            }
+            None => Statement::Empty,
+        })
     }
 
-    fn parse_function_declaration_inner(&mut self) -> Result<FunctionDeclaration, JsError> {
+    /// Returns None for an overload signature: `function f(x: number): string;`
+    fn parse_function_declaration_inner(
+        &mut self,
+    ) -> Result<Option<FunctionDeclaration>, JsError> {
         let start = self.current.span;
 
         let generator = self.match_token(&TokenKind::Star);
@@ -619,10 +620,14 @@ impl<'a> Parser<'a> {
         let type_parameters = self.parse_optional_type_parameters()?;
         let params: Rc<[_]> = self.parse_function_params()?.into();
         let return_type = self.parse_optional_return_type()?;
+        if !self.check(&TokenKind::LBrace) {
+            self.expect_semicolon()?;
+            return Ok(None);
+        }
         let body = Rc::new(self.parse_block_statement()?);
 
         let span = self.span_from(start);
-        Ok(FunctionDeclaration {
+        Ok(Some(FunctionDeclaration {
             id,
             params,
             return_type,
@@ -631,7 +636,7 @@ impl<'a> Parser<'a> {
             generator,
             async_: false,
             span,
-        })
+        }))
     }
 
     fn parse_function_params(&mut self) -> Result<Vec<FunctionParam>, JsError> {
@@ -2102,14 +2107,9 @@ impl<'a> Parser<'a> {
             } else if self.check(&TokenKind::Async) {
                 // export default async function
                 self.advance(); // consume 'async'
-                self.require_token(&TokenKind::Function)?;
-                let mut func = self.parse_function_declaration_inner()?;
-                func.async_ = true;
-                Some(Box::new(Statement::FunctionDeclaration(Box::new(func))))
+                Some(Box::new(self.parse_function_declaration(true)?))
             } else if self.check(&TokenKind::Function) {
-                Some(Box::new(Statement::FunctionDeclaration(Box::new(
-                    self.parse_function_declaration(false)?,
-                ))))
+                Some(Box::new(self.parse_function_declaration(false)?))
             } else if self.check(&TokenKind::Class) {
                 let mut class_decl = self.parse_class_declaration()?;
                 class_decl.decorators = decorators;
@@ -2124,6 +2124,9 @@ impl<'a> Parser<'a> {
                 })))
             };
 
+            // `export default function f(): void;` is an overload signature: it exports nothing
+            let type_only =
+                type_only || matches!(declaration.as_deref(), Some(Statement::Empty));
             let span = self.span_from(start);
             return Ok(ExportDeclaration {
                 declaration,
@@ -2220,14 +2223,9 @@ impl<'a> Parser<'a> {
             TokenKind::Async => {
                 // export async function
                 self.advance(); // consume 'async'
-                self.require_token(&TokenKind::Function)?;
-                let mut func = self.parse_function_declaration_inner()?;
-                func.async_ = true;
-                Some(Box::new(Statement::FunctionDeclaration(Box::new(func))))
+                Some(Box::new(self.parse_function_declaration(true)?))
             }
-            TokenKind::Function => Some(Box::new(Statement::FunctionDeclaration(Box::new(
-                self.parse_function_declaration(false)?,
-            )))),
+            TokenKind::Function => Some(Box::new(self.parse_function_declaration(false)?)),
             TokenKind::Class => {
                 let mut class_decl = self.parse_class_declaration()?;
                 class_decl.decorators = decorators;
